@@ -169,7 +169,12 @@ def run(ctx):
             probs.append("a successful first placement does not end the call with Ok")
         ev_at = [n for n, (k_, _) in enumerate(seq) if k_ == "evict"]
         if ev_at and not (ev_at[0] >= 2 and all(k_ == "try" and e_["ret"] == "false" for k_, e_ in seq[:2])):
-            probs.append("a slot is overwritten before both direct placements have failed")
+            # the second direct attempt may be skipped when both candidates are the SAME bucket (it has just been found full)
+            from ..guards import fv as _fv
+            fd_ = {repr(c_): t_ for c_, t_ in PathEnumerator.path_facts(p)}
+            same_bucket = _fv(fd_, mk("Eq", i1p, i2p)) is True
+            if not (same_bucket and ev_at[0] >= 1 and seq[0][0] == "try" and seq[0][1]["ret"] == "false"):
+                probs.append("a slot is overwritten before both direct placements have failed")
     ctx.check(not probs and n_first >= 3, "R14-first-insert", ii.key, ii, "first action is write_to_bucket(i1, f); success returns Ok; eviction only after both direct attempts failed",
               "; ".join(sorted(set(probs))[:2]) or "fewer than three placement paths")
 
